@@ -38,9 +38,12 @@ OPEN_STATEMENTS = [
     'space (hence equal spectra); '
     'both checked by the Spec oracle (exact) and numpy eigvalsh at 1e-9',
     'get_interaction_operator is proved sound (get_interaction_operator_sound: scatter loop on normal-ordered input + '
-    'normal_ordered of C03, lattice coefficients (1/D)Z[i] with tol*D <= 1); get_quadratic_hamiltonian and '
-    'get_diagonal_coulomb_hamiltonian (Hermiticity checks with tolerance, antisymmetrisation halves, V_pq = V_qp = -c/2, '
-    'which need the CAR) have no theorem yet: correspondence + Spec oracle + round-trip check only',
+    'normal_ordered of C03, lattice coefficients (1/D)Z[i] with tol*D <= 1); get_diagonal_coulomb_hamiltonian is proved '
+    'sound for ignore_incompatible_terms=False (get_diagonal_coulomb_hamiltonian_sound: loop + constructor + CAR of the '
+    'Spec, V_pq = V_qp = -c/2) under the per-run exact-regime flag "two-body coefficients of normal_ordered(A) real" '
+    '(counted as exact-regime(dch):True/False; the source drops an imaginary part below 1e-8); ignore=True (terms dropped '
+    'by design) is outside the theorem; get_quadratic_hamiltonian (chemical potential, Hermiticity and conjugate-term '
+    'checks with tolerance, antisymmetrisation halves) has no theorem yet: correspondence + Spec oracle + round trip only',
     'get_fermion_operator(MajoranaOperator): proved for the generators (majorana_generator_sound); products and sums use '
     'FermionOperator `*` and the pruning `+=` (exact regime) and are covered by the Spec oracle '
     '(get_majorana_operator(FermionOperator) is proved at full strength: get_majorana_operator_sound)',
@@ -842,8 +845,11 @@ def stream_conv(ctx):
     reqs = [{'op': 'c08.get_dch', 'A': enc_op('fermion', op.terms), 'n': nq, 'ignore': ignore}
             for op, ignore, nq, bad, _ in items]
     ans = ctx.driver.run(reqs)
+    flags = ctx.driver.run([{'op': 'c08.dch_exact', 'A': enc_op('fermion', op.terms)} for op, *_ in items])
     follow = []
-    for (op, ignore, nq, bad, tvc), m in zip(items, ans):
+    for (op, ignore, nq, bad, tvc), m, flag in zip(items, ans, flags):
+        if 'ok' in m and not ignore:
+            st.count('exact-regime(dch):%s' % flag)
         jA = enc_op('fermion', op.terms)
         case = {'f': 'get_diagonal_coulomb_hamiltonian', 'A': jA, 'n_qubits': nq, 'ignore_incompatible_terms': ignore}
         st.case(case)
